@@ -90,6 +90,17 @@ def assume_at_head(target, ordinal, over, text):
   return deco
 
 
+def list_invariant(target, ordinal, over, name, arity):
+  """element invariant of a python list / set of integer tuples that the loop grows: fn(view, [component terms]) -> z3 Bool holds for EVERY
+  element.  Proved for each element added by the body (side obligation `list-elem-inv`), assumed for the generic element at the loop head,
+  after the loop, and -- row by row -- for an array built from the list"""
+  def deco(fn):
+    e = _entry(target, ordinal, over, fn)
+    e.setdefault('lists', {})[name] = (fn, arity)
+    return fn
+  return deco
+
+
 def at_break(target, ordinal, over):
   """assertion that must hold whenever the loop is left through `break` (proved on every break path)"""
   def deco(fn):
@@ -475,6 +486,7 @@ def one_loop(ex, st, p, it, module, is_for, inv, target, ordinal, optional=froze
     p.assume(inv['entry_def'](view(ex, p)))
   brk = inv.get('at_break') if inv is not None else None
   local = inv.get('local') if inv is not None else None
+  lists_inv = dict((inv or {}).get('lists') or {})
   if inv is not None and inv.get('inv') is None:
     inv = None
   if inv is not None:
@@ -505,6 +517,19 @@ def one_loop(ex, st, p, it, module, is_for, inv, target, ordinal, optional=froze
       for a in sorted(attrs):
         if a in head.heap[selfv.oid]:
           head.heap[selfv.oid][a] = havoc_value(ex, head, head.heap[selfv.oid][a], 'self.' + a)
+    for lname, (lfn, arity) in sorted(lists_inv.items()):
+      lv = head.env.get(lname)
+      if not isinstance(lv, VListRef):
+        raise Unsupported('loop line %d: the sidecar declares an element invariant for `%s`, which is not a list / set here' % (st.lineno, lname))
+      L0 = dict(head.lists[lv.lid])
+      if L0.get('einv') is None and not (z3.is_int_value(z3.simplify(p.lists[lv.lid]['n'])) and z3.simplify(p.lists[lv.lid]['n']).as_long() == 0):
+        raise Unsupported('loop line %d: `%s` is not empty on entry and carries no element invariant' % (st.lineno, lname))
+      hv_ = view(ex, head)
+      L0['einv'] = (lambda comps, lfn=lfn, hv_=hv_: lfn(hv_, comps))
+      sample = VTuple([VInt(fresh('%s!e%d' % (lname, c_), z3.IntSort())) for c_ in range(arity)])
+      L0['elem'] = sample
+      head.lists[lv.lid] = L0
+      head.assume(L0['einv']([x.t for x in sample.items]))
     for loc in sorted(extra_locs):
       if loc in head.store:
         s_ = head.store[loc]
